@@ -1,9 +1,11 @@
 package core
 
 import (
+	"fmt"
 	"go/ast"
 	"go/token"
 	"go/types"
+	"os"
 )
 
 // FuncFacts holds per-function AST facts: assignments per local object, enclosing ranges.
@@ -266,6 +268,7 @@ const (
 
 // NilAnalysis memoises "never returns nil" function summaries.
 type NilAnalysis struct {
+	nowe    map[string]bool
 	P       *Prog
 	summary map[*types.Func]*nilSummary
 }
@@ -279,11 +282,12 @@ type nilSummary struct {
 
 // NewNilAnalysis creates the analysis.
 func NewNilAnalysis(p *Prog) *NilAnalysis {
-	return &NilAnalysis{P: p, summary: map[*types.Func]*nilSummary{}}
+	return &NilAnalysis{P: p, summary: map[*types.Func]*nilSummary{}, nowe: map[string]bool{}}
 }
 
 var externNeverNil = map[string]bool{
 	"fmt.Errorf": true, "errors.New": true, "errors.Join": false,
+	"context.WithValue": true, "context.Background": true, "context.TODO": true, "context.WithCancel": true,
 }
 
 // resultNeverNil: does result idx of fn never evaluate to nil? paramIdx >= 0: nil only if that param is nil.
@@ -441,6 +445,9 @@ func (na *NilAnalysis) classify(ff *FuncFacts, e ast.Expr, at ast.Node, depth in
 		if tv, ok := info.Types[x.Fun]; ok && tv.IsType() && len(x.Args) == 1 {
 			return na.classify(ff, x.Args[0], at, depth+1)
 		}
+		if IsBuiltin(info, x, "new") || IsBuiltin(info, x, "make") {
+			return NonNil
+		}
 		callee := CalleeOf(info, x)
 		if callee != nil {
 			never, pidx := na.resultNeverNil(callee, 0)
@@ -499,8 +506,7 @@ func (na *NilAnalysis) classifyObjAt(ff *FuncFacts, o types.Object, at ast.Node,
 				continue
 			}
 			// does s assign o (anywhere inside)?
-			objs := assignedObjs(info, []ast.Node{s})
-			if !objs[o] {
+			if !assignsIdent(info, s, o) {
 				continue
 			}
 			if as, ok := s.(*ast.AssignStmt); ok {
@@ -569,6 +575,23 @@ guards:
 			}
 		}
 	}
+	// 2b. `v, err := f(...)` and err == nil holds here: for a library f returning (T, error) the
+	// standard convention makes T usable (non-nil) when err is nil; for a repo f the returns are
+	// inspected (NilOnlyWithError)
+	if as := ff.asg[o]; len(as) == 1 && as[0].Call != nil && as[0].Idx == 0 {
+		if callee := CalleeOf(info, as[0].Call); callee != nil {
+			sig := callee.Type().(*types.Signature)
+			if n := sig.Results().Len(); n >= 2 && types.Identical(sig.Results().At(n-1).Type(), types.Universe.Lookup("error").Type()) {
+				if st, ok := as[0].Stmt.(*ast.AssignStmt); ok && len(st.Lhs) == n {
+					if eid, ok := st.Lhs[n-1].(*ast.Ident); ok && na.errNilAt(ff, info.ObjectOf(eid), at) {
+						if !InRepo(callee.Pkg()) || na.NilOnlyWithError(callee, 0, n-1) {
+							return NonNil
+						}
+					}
+				}
+			}
+		}
+	}
 	// 3. every assignment in the function is non-nil and there is at least one, and the variable
 	// is not declared without a value
 	as := ff.asg[o]
@@ -592,6 +615,109 @@ guards:
 		}
 	}
 	return MaybeNil
+}
+
+// assignsIdent: does statement s (anywhere inside, closures included) assign the variable o itself
+// (not a field or element of it), or take its address?
+func assignsIdent(info *types.Info, s ast.Node, o types.Object) bool {
+	found := false
+	is := func(e ast.Expr) bool {
+		id, ok := ast.Unparen(e).(*ast.Ident)
+		return ok && info.ObjectOf(id) == o
+	}
+	ast.Inspect(s, func(n ast.Node) bool {
+		switch x := n.(type) {
+		case *ast.AssignStmt:
+			for _, l := range x.Lhs {
+				if is(l) {
+					found = true
+				}
+			}
+		case *ast.IncDecStmt:
+			if is(x.X) {
+				found = true
+			}
+		case *ast.RangeStmt:
+			if (x.Key != nil && is(x.Key)) || (x.Value != nil && is(x.Value)) {
+				found = true
+			}
+		case *ast.UnaryExpr:
+			if x.Op == token.AND && is(x.X) {
+				found = true
+			}
+		case *ast.ValueSpec:
+			for _, nm := range x.Names {
+				if info.Defs[nm] == o {
+					found = true
+				}
+			}
+		}
+		return !found
+	})
+	return found
+}
+
+// errNilAt: the guards at `at` establish errObj == nil.
+func (na *NilAnalysis) errNilAt(ff *FuncFacts, errObj types.Object, at ast.Node) bool {
+	if errObj == nil {
+		return false
+	}
+	for _, a := range Atoms(GuardsAt(ff.Info, ff.Body, at)) {
+		be, ok := ast.Unparen(a.Expr).(*ast.BinaryExpr)
+		if !ok || !IsNil(ff.Info, be.Y) {
+			continue
+		}
+		if (be.Op == token.NEQ && !a.Pos) || (be.Op == token.EQL && a.Pos) {
+			if id, ok := ast.Unparen(be.X).(*ast.Ident); ok && ff.Info.ObjectOf(id) == errObj {
+				return true
+			}
+		}
+	}
+	return false
+}
+
+// NilOnlyWithError: in every return of fn, result j is provably non-nil or result errIdx (an error)
+// is provably non-nil.
+func (na *NilAnalysis) NilOnlyWithError(fn *types.Func, j, errIdx int) bool {
+	fn = fn.Origin()
+	if !InRepo(fn.Pkg()) {
+		return false
+	}
+	key := fmt.Sprintf("%p/%d/%d", fn, j, errIdx)
+	if na.nowe == nil {
+		na.nowe = map[string]bool{}
+	}
+	if v, ok := na.nowe[key]; ok {
+		return v
+	}
+	na.nowe[key] = false
+	fd := na.P.declByObj[fn]
+	if fd == nil || fd.Body == nil {
+		return false
+	}
+	ff := NewFuncFacts(na.P, na.P.InfoFor(fn.Pkg()), fd)
+	n := 0
+	good := true
+	forEachReturn(fd.Body, func(x *ast.ReturnStmt) {
+		n++
+		if len(x.Results) <= j || len(x.Results) <= errIdx {
+			good = false
+			return
+		}
+		if na.Classify(ff, x.Results[j], x) == NonNil {
+			return
+		}
+		if na.Classify(ff, x.Results[errIdx], x) == NonNil {
+			return
+		}
+		if os.Getenv("KINLINT_DEBUG") == "NOWE" {
+			fmt.Fprintf(os.Stderr, "NOWE %s: return at %s undecided\n", fn.FullName(), na.P.Fset.Position(x.Pos()))
+		}
+		good = false
+	})
+	res := good && n > 0
+	na.nowe[key] = res
+	return res
 }
 
 func isNamedResult(fd *ast.FuncDecl, info *types.Info, o types.Object) bool {
